@@ -58,8 +58,8 @@ class CopyListener:
 
 class CopyMachine(StateMachine):
     a = State(initial=True)
-    b = State()
-    c = State()
+    b = State(value=0)   # falsy values: a clone taken in b or c must not take them for "no state yet"
+    c = State(value="")
 
     go = a.to(b, cond="ok", unless=["veto", "blocked"]) | a.to(c) | b.to(c) | c.to(a)
     back = b.to(a) | c.to(b)
@@ -97,6 +97,9 @@ class AsyncCopyMachine(StateMachine):
     async def on_go(self, source, target):
         self.log.append((source.id, target.id))
         return (self.tag, target.id)
+
+
+VALUE_OF = {"a": "a", "b": 0, "c": ""}
 
 
 def step(cur, ev, ok):
@@ -159,7 +162,7 @@ def run(ctx, params):
         l1 = CopyListener("late")
         kw = {"rtc": rtc, "allow_event_without_transition": allow, "state_field": field, "listeners": [l0], "tag": f"T{o}"}
         if start_value:
-            kw["start_value"] = start_value
+            kw["start_value"] = VALUE_OF[start_value]
         sm = CopyMachine(model, **kw)
         sm.add_listener(l1)
     cur = "b" if start_value else "a"
@@ -176,11 +179,11 @@ def run(ctx, params):
         raise Mismatch(f"clone-shares-model:{tag}", "clone.model is the original's model object (or of another type)")
     if clone.current_state.id != cur or sm.current_state.id != cur:
         raise Mismatch(f"clone-in-wrong-state:{tag}", f"expected {cur}: original {sm.current_state.id}, clone {clone.current_state.id}")
-    if getattr(clone.model, field) != cur:
+    if getattr(clone.model, field) != VALUE_OF[cur]:
         raise Mismatch(f"clone-model-field:{tag}", f"clone.model.{field} = {getattr(clone.model, field)!r}")
     if clone.tag != sm.tag or clone.notes != sm.notes or clone.notes is sm.notes or clone.log != sm.log or clone.log is sm.log:
         raise Mismatch(f"clone-attributes:{tag}", "custom attributes are not equal-but-separate copies")
-    if clone.allow_event_without_transition != allow or clone.state_field != field or clone.start_value != start_value:
+    if clone.allow_event_without_transition != allow or clone.state_field != field or clone.start_value != (VALUE_OF[start_value] if start_value else None):
         raise Mismatch(f"clone-options-lost:{tag}", f"allow={clone.allow_event_without_transition} field={clone.state_field} start_value={clone.start_value}")
     eng = getattr(clone, "_engine", None)
     if eng is not None and hasattr(eng, "_rtc") and eng._rtc != rtc:
